@@ -1634,8 +1634,9 @@ def elem_method(interp, v: ElemV, name, args, kwargs, node):
             return Sym(("symbol_name", v.var), "str")
     if v.role == "clause":
         if name == "copy":
-            interp.log("copy", node, src=v, dst=v)
-            return v
+            cp = ElemV(("copy", v.var, interp.fresh_id("cp")), v.role, v.fam, v.cls)
+            interp.log("copy", node, src=v, dst=cp)
+            return cp
         if name in ("append", "extend", "insert", "pop", "remove"):
             interp.log("elem.mutate", node, obj=v, method=name, args=tuple(args))
             return Const(None)
